@@ -199,6 +199,62 @@ def freshValue {V} (cfg : Cfg) (sem : Sem V) (d : ModelDef) (pv : List Rat) (e :
   let r := evalStep cfg (cinit cfg d pv) e
   sem e r.2.1.defn r.2.1.sp (x ++ [t] ++ (cinit cfg d pv).pvals)
 
+/-! ### two live instances, and where the flags live
+
+`CompileCanary._states = {}` is a CLASS attribute.  `CompileCanary.trip()` as written REBINDS it
+(`self._states = dict(...)`), and `__init__` calls `trip()`, so every canary object owns its dict and
+`__setattr__` (`self._states[name] = False`) writes to that object's dict only: `shared = false`.
+A `trip()` that updates `self._states` in place writes to the class attribute, and every canary of every model
+instance then reads and writes ONE dict: `shared = true` (after every operation of one instance the other
+instance sees the same flags).  Everything else (`<name>Compiled`, `_sp`, `_paramValue`, the definition) is
+held per instance in both variants. -/
+
+inductive Who
+  | A | B
+deriving DecidableEq, Repr, Inhabited
+
+structure PState where
+  a : CState
+  b : CState
+
+def PState.get (p : PState) : Who → CState
+  | .A => p.a
+  | .B => p.b
+
+/-- one operation addressed to one of two live instances -/
+def pstep (cfg : Cfg) (shared : Bool) (p : PState) : Who × Op → PState × Option Obs
+  | (.A, op) =>
+    let r := step cfg p.a op
+    ({ a := r.1, b := if shared then { p.b with flag := r.1.flag } else p.b }, r.2)
+  | (.B, op) =>
+    let r := step cfg p.b op
+    ({ a := if shared then { p.a with flag := r.1.flag } else p.a, b := r.1 }, r.2)
+
+/-- two freshly constructed instances -/
+def pinit (cfg : Cfg) (dA : ModelDef) (pvA : List Rat) (dB : ModelDef) (pvB : List Rat) : PState :=
+  ⟨cinit cfg dA pvA, cinit cfg dB pvB⟩
+
+def prunState (cfg : Cfg) (shared : Bool) (p : PState) : List (Who × Op) → PState
+  | [] => p
+  | wo :: ops => prunState cfg shared (pstep cfg shared p wo).1 ops
+
+/-- the observations of an interleaved history, each with the instance that made it -/
+def prun (cfg : Cfg) (shared : Bool) (p : PState) : List (Who × Op) → List (Who × Obs)
+  | [] => []
+  | wo :: ops =>
+    let r := pstep cfg shared p wo
+    match r.2 with
+    | some o => (wo.1, o) :: prun cfg shared r.1 ops
+    | none => prun cfg shared r.1 ops
+
+/-- the operations addressed to one instance -/
+def opsOf (w : Who) (ops : List (Who × Op)) : List Op :=
+  ops.filterMap (fun wo => if wo.1 = w then some wo.2 else none)
+
+/-- the observations made by one instance -/
+def obsOf (w : Who) (os : List (Who × Obs)) : List Obs :=
+  os.filterMap (fun wo => if wo.1 = w then some wo.2 else none)
+
 /-! ### source variants -/
 
 def allEv : Ev → Bool := fun _ => true
@@ -240,6 +296,10 @@ which is the intended signal, and `never_stale_partial` + the counterexamples ar
 The harness can also ask the driver for the as-found variant (`"cfg":"as_found"`, env VERIF_C08_CFG).
 -/
 def sourceCfg : Cfg := Cfg.simulate
+
+/-- where the flags live in the source as modelled: `trip()` rebinds `self._states`, one dict per canary object
+(`Pygom.C08Source.extracted_store_eq_source` re-checks this against the text of compile_canary.py) -/
+def sourceShared : Bool := false
 
 def asFoundCfg : Cfg := Cfg.simulateAsFound
 
